@@ -8,8 +8,10 @@
     [C05_wf_invariant]) and every history; parameters: [od] = which names are served by an
     on-demand configuration, [idue] = whether the issuer hands out certificates that are
     already due. *)
-From Coq Require Import List Arith Bool.
-From CM Require Import Maintain.Model Maintain.Spec Maintain.Base Maintain.Inv Maintain.Proofs.
+From Coq Require Import List Arith Bool Lia.
+From CM Require Import Maintain.Model Maintain.Spec Maintain.Base Maintain.Inv Maintain.Proofs
+  Maintain.SpecSound.
+From CM Require Maintain.Check.
 Import ListNotations.
 
 (** ** Invariant. Its components include: identities are unique; what is stored under a name is a
@@ -208,6 +210,28 @@ Theorem C05_manage_async_completes_like_sync : forall od idue s n,
 Proof. exact manage_async_completes_like_sync. Qed.
 Print Assumptions C05_manage_async_completes_like_sync.
 
+(** ** The run-time monitor is the property: every clause of [Spec.spec_step] (index and served
+    certificate agree with the cache; Issue only if absent or due; storage written only by an
+    issuance or another instance; not-due / unmanaged / on-demand certificates kept; removal
+    only with replacement; additions only from storage; job dedup; and what each kind of event
+    may and must do — adopt, queue a renewal, keep everything on a failed attempt, load else
+    obtain / renew if due) holds of the model's observations before and after any event, from
+    any well-formed state, for any history inside the universe of [k] names. *)
+Theorem C05_monitor_sound : forall od idue k s h pend,
+  WF od s -> Bounded k s -> Forall (ev_ok k) h -> pend_equiv pend (passes s) ->
+  spec_run od idue k pend (observe k s) (trace od idue k s h) = true.
+Proof. exact spec_run_sound. Qed.
+Print Assumptions C05_monitor_sound.
+
+(** a correspondence case on which the implementation's observations equal the model's
+    ([Check.model_agrees]) satisfies the monitor: "agrees with the model" and "violates the
+    specification" exclude each other *)
+Theorem C05_agreeing_case_satisfies_spec : forall c : Check.case,
+  Check.model_agrees c = true -> Forall (ev_ok (Check.c_k c)) (map fst (Check.c_hist c)) ->
+  spec_run (Check.od_of c) (Check.c_idue c) (Check.c_k c) [] (Check.c_obs0 c) (Check.c_hist c) = true.
+Proof. exact agreeing_case_satisfies_spec. Qed.
+Print Assumptions C05_agreeing_case_satisfies_spec.
+
 (** ** Non-vacuity: concrete well-formed states meeting the hypotheses *)
 Definition ex_od (n : name) : bool := n =? 2.
 Definition c0 := Cert 0 0 [3] true true.     (* due, managed, names 0 and 3 *)
@@ -275,4 +299,16 @@ Example ex_manage :
 Proof.
   cbn zeta. split; [apply (wf_b_sound ex_od 4); vm_compute; reflexivity|].
   vm_compute. intuition.
+Qed.
+(** hypotheses of [C05_monitor_sound] on a history that adopts, renews, fails and manages *)
+Example ex_monitor :
+  let h := [SetIssuer 1 true; PassScan 1; PassScan 2; PassAct 1; JobStep 0 0; ExtRenew 1 [];
+            JobStep 0 0; PassAct 2; JobStep 0 0; Manage 3 true; JobStep 3 0; JobStep 3 0; JobStep 3 0] in
+  wf_b ex_od 4 (ex_stale []) = true /\ Forall (ev_ok 4) h /\
+  spec_run ex_od false 4 [] (observe 4 (ex_stale [])) (trace ex_od false 4 (ex_stale []) h) = true /\
+  cache (run ex_od false (ex_stale []) h) = [c1; c2; c3; Cert 6 0 [] false true; Cert 7 3 [] false true].
+Proof.
+  cbn zeta. split; [vm_compute; reflexivity|]. split.
+  - repeat (apply Forall_cons; [cbn; try exact I; try lia; try (split; [lia | intros m []]) |]). apply Forall_nil.
+  - split; vm_compute; reflexivity.
 Qed.
